@@ -6,7 +6,7 @@ from common import log, Undecided, BuildFailed, overlay_files_in_errors, VERIF, 
 
 
 def _env(scratch, ctx):
-    xout = os.path.join(VERIF, "replays", "inputs")
+    xout = os.path.join(VERIF, "replays", "inputs") if common.REPO.rstrip("/") == "/repo" else os.path.join(os.environ.get("VERIF_REPLAY_DIR", "/var/tmp/verif-alt/replays"), "inputs")
     os.makedirs(xout, exist_ok=True)
     return {"RUSTFLAGS": "--cfg asefile_verif", "CARGO_TARGET_DIR": os.path.join(scratch.root, "target-native"),
             # optimised but with overflow checks and debug assertions (the test profile keeps both on)
